@@ -212,34 +212,15 @@ def run(rep):
     # compares snapshots of it by equality, so any other store (a reset in
     # __init__, which rebuild() re-runs on a live registry; a restore) can bring
     # it back to a value a snapshot already holds and hide the changes in between
-    writers = []
-    for fn in ast.walk(mod):
-        if not isinstance(fn, (ast.FunctionDef, ast.AsyncFunctionDef)):
-            continue
-        for n in ast.walk(fn):
-            tgts = []
-            if isinstance(n, ast.Assign):
-                tgts = [(t, 'store') for t in n.targets]
-            elif isinstance(n, ast.AugAssign):
-                inc = isinstance(n.op, ast.Add) and isinstance(n.value, ast.Constant) \
-                    and n.value.value == 1
-                tgts = [(n.target, 'increment' if inc else 'store')]
-            elif isinstance(n, ast.Delete):
-                tgts = [(t, 'store') for t in n.targets]
-            elif isinstance(n, ast.Call) and dotted(n.func) in ('setattr', 'delattr') and \
-                    len(n.args) >= 2 and isinstance(n.args[1], ast.Constant) and \
-                    n.args[1].value == '_generation':
-                writers.append((fn.name, 'store'))
-            for t, kind in tgts:
-                for x in ast.walk(t):
-                    if isinstance(x, ast.Attribute) and x.attr == '_generation' and \
-                            isinstance(x.ctx, (ast.Store, ast.Del)):
-                        writers.append((fn.name, kind))
-    okw = bool(writers) and all(w == ('changed', 'increment') for w in writers)
-    rep.check('R06.5', 'BaseAdapterRegistry._generation', okw,
-              'the generation counter is only ever incremented, and only by '
-              'changed(): %s' % sorted(set(writers)), construct='monotone',
-              node=find_def(mod, 'BaseAdapterRegistry'))
+    shared.generation_monotone(rep, 'R06.5', mod)
+    # ... and the cache dictionary is fetched (which is where a verifying lookup
+    # compares the generations of its CURRENT bases) only after everything that
+    # can run application code: an answer from a dictionary fetched earlier
+    # ignores what that code registered in a base meanwhile
+    from . import sem as _sem68
+    for fn_ in ('lookup', 'lookup1', 'adapter_hook', 'lookupAll', 'subscriptions'):
+        _sem68.fetch_order_spec(rep, 'R06.5', find_def(mod, 'LookupBase.' + fn_),
+                                'LookupBase.' + fn_)
 
     # ---- R06.6 -------------------------------------------------------------
     from .C05 import inv1
